@@ -194,8 +194,8 @@ static void explore_write(int doc, int flags, int to_file, int bound)
 			vf_close(fd);
 		json_object_put(o);
 		free(text);
+		check_clean(cur_op); /* before the descriptor table is reset: a descriptor the library opened must be closed by now */
 		vf_fd_reset();
-		check_clean(cur_op);
 	} while (next_vector(bound) && !mc_deadline());
 	MC_COUNT("calls", runs);
 	MC_COUNT("schedules", runs);
@@ -288,8 +288,8 @@ static void explore_read(int doc, int depth, int from_file, int bound)
 		json_object_put(o);
 		if (fd >= 0)
 			vf_close(fd);
+		check_clean(cur_op); /* before the descriptor table is reset: a descriptor the library opened must be closed by now */
 		vf_fd_reset();
-		check_clean(cur_op);
 	} while (next_vector(bound) && !mc_deadline());
 	free(text);
 	MC_COUNT("calls", runs);
@@ -341,8 +341,8 @@ static void enumerate(void)
 		if (json_object_to_file("denied.json", o) != -1)
 			mc_violation("unopenable-file", "json_object_to_file with a failing open() did not fail");
 		json_object_put(o);
-		vf_fd_reset();
 		check_clean("argument errors");
+		vf_fd_reset();
 	}
 }
 static int replay(const char *desc)
